@@ -184,5 +184,9 @@ def run(c):
     def search():
         compare(observe(90, 100, 150, c.seed + 7), "search")
 
+    if thorough:
+        c.clean_theories_build()
+        if gen_ok:
+            c.coqchk(["RGW.C15"])
     c.coverage["exhaustive"] = False
     c.finish(search=search)
